@@ -453,7 +453,9 @@ LEVEL_TEXT = (
     "call deep (NaN-stable, bit-exact) fingerprints of all shared arguments and of every built-in component and mixture are "
     "compared with the initial ones, one call is repeated later in the history, and every call's result is compared bitwise "
     "with the same call executed as the only call of a fresh interpreter with a different hash seed; after every call the "
-    "harness overwrites the containers of the returned objects (the caller owns them), so an object handed out twice is seen. Held means no "
+    "harness overwrites the containers of the returned objects (the caller owns them), so an object handed out twice is seen; returned models and curves are "
+    "plotted (must stay unchanged), calls on an unrelated second set of objects are made in between, and four shards run a history of default-method "
+    "VLE fits (a large data set first) against fresh interpreters. Held means no "
     "fingerprint changed and no result depended on the preceding history in this run."
 )
 LEVEL_NOTE = "Trusted: bit-reproducibility of numpy/scipy across processes on this machine with single-threaded BLAS; world construction is identical in both processes."
